@@ -55,6 +55,16 @@ CHECKS = {
             "trusted: numpy; dyadic populations (a population is null in the arithmetic the code uses); F(alpha) <= "
             "alpha(1+1e-9)+1e-12; defects that need N > 11 and move the rejection probability by < ~0.01 are out of reach",
             "DESIGN.md section 4, C01"),
+    "C02": ("reference-model monitor: independent exact tally (Fractions) vs the real assorter means, per-ballot range check, margin-from-tally identity",
+            "Exploration by runtime monitoring: for each generated ballot profile the real make_plurality_assertions / "
+            "make_supermajority_assertion are built and Assorter.mean evaluated (style on and off); an independent tally "
+            "decides whether every reported winner strictly beats every reported loser (resp. W > f V) and the iff is "
+            "compared exactly, pair by pair and as a conjunction; every assorter value is range-checked; "
+            "find_margin_from_tally is compared with 2*mean-1 for the oracle tally and both Contest.tally modes. "
+            "Ties, k-winner, approval, exact-threshold and all-invalid strata are forced.",
+            "trusted: numpy; shares with f and 1/(2f) dyadic at the threshold, other shares only away from it; ballot "
+            "candidates are a subset of the contest's candidates",
+            "DESIGN.md section 4, C02"),
 }
 
 PENDING_REASON = ("check designed in DESIGN.md section 4 but not yet built in this session; "
